@@ -329,8 +329,8 @@ Theorem voa_rule : forall c lib bmin bmax pref_total prev_dp prev_voa nl tp tp_a
      | None =>
          voa = 0 /\
          (if c_power_mode c && a_voa_auto params
-          then d_ovoa d = Qmax (round2float (Qmin (a_pmax params - pt) (a_gmax params - (g0 + red))) (c_voa_step c)
-                                - c_voa_margin c) 0 /\
+          then (let raw := Qmin (a_pmax params - pt) (a_gmax params - (g0 + red)) in
+                d_ovoa d = Qmax (Qmin (round2float raw (c_voa_step c) - c_voa_margin c) raw) 0) /\
                d_gain d == g0 + red + d_ovoa d /\ d_dp d == dp + d_ovoa d
           else d_ovoa d = 0 /\ d_gain d == g0 + red /\ d_dp d == dp)
      end).
@@ -350,21 +350,17 @@ Proof.
     repeat split; try reflexivity; try exact Hvoa; lra.
 Qed.
 
-(* with the automatic VOA included, the total design power stays within p_max provided the VOA margin is at
-   least half the rounding step (the default 1 dB / 0.5 dB is); see voa_overshoot_refuted for the other case *)
-Definition voa_margin_ok (c : span_cfg) : Prop :=
-  (1 # 100 <= r2f_step (c_voa_step c) -> (1 # 2) * r2f_step (c_voa_step c) <= c_voa_margin c) /\
-  (~ 1 # 100 <= r2f_step (c_voa_step c) -> 1 # 200 <= c_voa_margin c).
-
+(* with the automatic VOA included (it is capped at the head-room), the total design power stays within p_max.
+   In gain mode the saturation test of an imposed variety is made before the input VOA, hence the sign condition *)
 Theorem total_power_within_pmax : forall c lib bmin bmax pref_total prev_dp prev_voa nl tp tp_arg prev next a d dp voa,
-  voa_margin_ok c -> c_power_mode c = true ->
+  (c_power_mode c = true \/ 0 <= ozero (an_ivoa a)) ->
   set_one c lib bmin bmax pref_total prev_dp prev_voa nl tp tp_arg prev next a = Ok (d, dp, voa) ->
   exists params, In params lib /\ a_name params = d_variety d /\ pref_total + d_dp d <= a_pmax params.
 Proof.
-  intros c lib bmin bmax pref_total prev_dp prev_voa nl tp tp_arg prev next a d dp voa [Hm1 Hm2] Hpm H.
+  intros c lib bmin bmax pref_total prev_dp prev_voa nl tp tp_arg prev next a d dp voa Hmode H.
   destruct (set_one_inv _ _ _ _ _ _ _ _ _ _ _ _ _ _ _ _ H)
     as (g0 & pt & dp0 & params & red & HT & Hsel & Hdp & Hv & Hg & _ & Hd & Ho & _).
-  destruct (targets_inv _ _ _ _ _ _ _ _ _ _ _ HT) as (_ & Hpt & _ & _).
+  destruct (targets_inv _ _ _ _ _ _ _ _ _ _ _ HT) as (Hb & Hpt & _ & _).
   assert (Hinp : In params lib).
   { destruct Hsel as [[_ Hsel] | (_ & Hfind & _)];
       [apply auto_select_red in Hsel; tauto | apply find_amp_In in Hfind; tauto]. }
@@ -375,23 +371,24 @@ Proof.
       destruct (Q.min_spec x (a_pmax params)) as [[H1 H2] | [H1 H2]];
         destruct (Q.min_spec (Qmin x (a_pmax params) - (pref_total + dp0)) 0) as [[H3 H4] | [H3 H4]];
         rewrite H4; rewrite H2 in *; split; lra.
-    - subst dp red. rewrite Hpm.
-      destruct (Q.min_spec 0 (a_pmax params - (pref_total + dp0))) as [[H1 H2] | [H1 H2]]; rewrite H2; split; lra. }
+    - subst dp red. destruct (c_power_mode c) eqn:Epm.
+      + destruct (Q.min_spec 0 (a_pmax params - (pref_total + dp0))) as [[H1 H2] | [H1 H2]]; rewrite H2; split; lra.
+      + destruct Hmode as [Hm | Hiv]; [discriminate |].
+        destruct (Q.min_spec 0 (a_pmax params - (pref_total + prev_dp - nl - prev_voa + g0))) as [[H1 H2] | [H1 H2]];
+          rewrite H2; split; lra. }
   destruct Hsat' as [Hsat' Hred0].
   exists params. split; [exact Hinp |]. split; [symmetry; exact Hv |].
-  rewrite Hd, Hpm. unfold voa_auto_on. destruct (an_ovoa a) as [x |].
+  rewrite Hd. unfold voa_auto_on. destruct (c_power_mode c) eqn:Epm; [| subst dp; lra].
+  destruct (an_ovoa a) as [x |].
   - subst dp. lra.
-  - rewrite Hpm. cbn [andb]. destruct (a_voa_auto params); [| subst dp; lra].
-    unfold auto_voa. set (raw := auto_voa_raw (a_pmax params) (a_gmax params) pt (g0 + red)).
+  - cbn [andb]. destruct (a_voa_auto params); [| subst dp; lra].
+    unfold auto_voa. cbv zeta. set (raw := auto_voa_raw (a_pmax params) (a_gmax params) pt (g0 + red)).
     assert (Hraw : raw <= a_pmax params - pt) by (unfold raw, auto_voa_raw; apply Q.le_min_l).
-    assert (Hround : round2float raw (c_voa_step c) - c_voa_margin c <= raw).
-    { destruct (Qlt_le_dec (r2f_step (c_voa_step c)) (1 # 100)) as [Hlt | Hge].
-      - assert (Hn : ~ 1 # 100 <= r2f_step (c_voa_step c)) by (apply Qlt_not_le; exact Hlt).
-        pose proof (round2float_le_fine raw _ Hn). specialize (Hm2 Hn). lra.
-      - pose proof (round2float_le raw _ Hge) as Hr. specialize (Hm1 Hge).
-        setoid_replace (r2f_step (c_voa_step c) / 2) with ((1 # 2) * r2f_step (c_voa_step c)) in Hr by field. lra. }
+    set (r := round2float raw (c_voa_step c) - c_voa_margin c).
+    assert (Hcap : Qmin r raw <= raw) by apply Q.le_min_r.
     subst dp pt.
-    destruct (Q.max_spec (round2float raw (c_voa_step c) - c_voa_margin c) 0) as [[H1 H2] | [H1 H2]]; rewrite H2; clearbody raw; clear - Hsat' Hred0 Hround Hraw H1; lra.
+    destruct (Q.max_spec (Qmin r raw) 0) as [[H1 H2] | [H1 H2]]; rewrite H2; clearbody raw r;
+      clear - Hsat' Hred0 Hcap Hraw H1; lra.
 Qed.
 
 (* ------------------------------------------------------------------ the power rule *)
@@ -511,20 +508,43 @@ Proof.
     injection Hd as <-. constructor; [eapply HP; exact ES | eapply IH; exact ED].
 Qed.
 
+Lemma design_from_each_in : forall (P : damp -> Prop) c lib bmin bmax pref_total e after,
+  (forall prev_dp prev_voa nl tp tp_arg prev next a d dp voa, In (Amp a) after ->
+     set_one c lib bmin bmax pref_total prev_dp prev_voa nl tp tp_arg prev next a = Ok (d, dp, voa) -> P d) ->
+  forall prevn seg prev_dp prev_voa ds,
+  design_from c lib bmin bmax pref_total e prevn seg prev_dp prev_voa after = Ok ds -> Forall P ds.
+Proof.
+  intros P c lib bmin bmax pref_total e after.
+  induction after as [| x rest IH]; intros HP prevn seg prev_dp prev_voa ds Hd.
+  - cbn in Hd. injection Hd as <-. constructor.
+  - assert (HP' : forall prev_dp prev_voa nl tp tp_arg prev next a d dp voa, In (Amp a) rest ->
+              set_one c lib bmin bmax pref_total prev_dp prev_voa nl tp tp_arg prev next a = Ok (d, dp, voa) -> P d).
+    { intros. eapply HP; [right; eassumption | eassumption]. }
+    destruct x as [f | l | a]; cbn [design_from] in Hd; try (eapply (IH HP'); exact Hd).
+    match type of Hd with bind ?r _ = _ => destruct r as [[[d dp] voa] | err] eqn:ES end; cbn [bind] in Hd;
+      [| discriminate].
+    match type of Hd with bind ?r _ = _ => destruct r as [ds' | err] eqn:ED end; cbn [bind] in Hd; [| discriminate].
+    injection Hd as <-. constructor; [eapply HP; [left; reflexivity | exact ES] | eapply (IH HP'); exact ED].
+Qed.
+
+(* total design power never exceeds the amplifier's maximum output, automatic VOA included *)
 Theorem design_within_pmax : forall c lib bmin bmax pref_ch pref_total p0 s e chain ds,
-  voa_margin_ok c -> c_power_mode c = true ->
+  (c_power_mode c = true \/
+   Forall (fun x => match x with Amp a => 0 <= ozero (an_ivoa a) | _ => True end) chain) ->
   design c lib bmin bmax pref_ch pref_total p0 s e chain = Ok ds ->
   Forall (fun d => exists params, In params lib /\ a_name params = d_variety d /\
                                   pref_total + d_dp d <= a_pmax params) ds.
 Proof.
-  intros c lib bmin bmax pref_ch pref_total p0 s e chain ds Hm Hpm Hd. unfold design in Hd.
-  eapply design_from_each; [| exact Hd]. intros. eapply total_power_within_pmax; eassumption.
+  intros c lib bmin bmax pref_ch pref_total p0 s e chain ds Hm Hd. unfold design in Hd.
+  eapply design_from_each_in; [| exact Hd]. intros prev_dp prev_voa nl tp tp_arg prev next a d dp voa Hin Hs.
+  eapply total_power_within_pmax; [| exact Hs].
+  destruct Hm as [Hm | Hm]; [left; exact Hm | right].
+  rewrite Forall_forall in Hm. exact (Hm _ Hin).
 Qed.
 
 (* ------------------------------------------------------------------ span losses after connector / padding preparation *)
 Definition passive (e : elem) : Prop := is_ff e = true.
-Definition raw_el (e : elem) : Prop := match e with Fib f => f_dsl f = None /\ f_att f == 0 | _ => True end.
-Definition att0 (e : elem) : Prop := match e with Fib f => f_att f == 0 | _ => True end.
+Definition raw_el (e : elem) : Prop := match e with Fib f => f_dsl f = None | _ => True end.
 (* no fibre directly follows a fibre (add_inline_amplifier puts an amplifier between them) *)
 Definition fib_pair (x : elem) (t : list elem) : Prop :=
   match x, t with Fib _, Fib _ :: _ => False | _, _ => True end.
@@ -568,33 +588,30 @@ Proof. intros f r d Hd He. unfold seg_ok, node_loss_of, span_loss. rewrite Hd. e
 
 Lemma bump_spec : forall seg node d seg' node' o,
   bump seg node d = (seg', node', o) ->
-  Forall passive (node :: seg) -> Forall att0 (node :: seg) ->
+  Forall passive (node :: seg) ->
   Forall passive (node' :: seg') /\
   (forall f, node = Fib f -> exists f', node' = Fib f') /\
   match o with
-  | Some att => att == d /\ qsum (map eloss (node' :: seg')) == qsum (map eloss (node :: seg)) + d
+  | Some _ => qsum (map eloss (node' :: seg')) == qsum (map eloss (node :: seg)) + d
   | None => seg' = seg /\ node' = node
   end.
 Proof.
-  induction seg as [| p r IH]; intros node d seg' node' o H Hp Ha.
+  induction seg as [| p r IH]; intros node d seg' node' o H Hp.
   - cbn [bump] in H. destruct node as [f | l | a]; injection H as <- <- <-.
     + split; [constructor; [reflexivity | constructor] |]. split; [intros f0 _; eexists; reflexivity |].
-      inversion Ha as [| ? ? Hf _]; subst. cbn in Hf. split; [lra |].
       unfold qsum. cbn [map fold_right eloss]. unfold floss, set_att. cbn [f_lin f_cin f_cout f_att]. lra.
     + split; [exact Hp |]. split; [intros f0 Hf0; discriminate | split; reflexivity].
     + split; [exact Hp |]. split; [intros f0 Hf0; discriminate | split; reflexivity].
-  - cbn [bump] in H. inversion Hp as [| ? ? Hp1 Hp2]; subst. inversion Ha as [| ? ? Ha1 Ha2]; subst.
+  - cbn [bump] in H. inversion Hp as [| ? ? Hp1 Hp2]; subst.
     destruct (link_ok p node) eqn:L.
     + destruct (bump r p d) as [[r' p'] o'] eqn:EB. injection H as <- <- <-.
-      destruct (IH p d r' p' o' EB Hp2 Ha2) as (Hp' & _ & Ho).
+      destruct (IH p d r' p' o' EB Hp2) as (Hp' & _ & Ho).
       split; [constructor; assumption |]. split; [intros f0 Hf0; eexists; exact Hf0 |].
       destruct o' as [att |].
-      * destruct Ho as [Hatt Hsum]. split; [exact Hatt |].
-        unfold qsum in *. cbn [map fold_right] in *. lra.
+      * unfold qsum in *. cbn [map fold_right] in *. lra.
       * destruct Ho as [-> ->]. split; reflexivity.
     + destruct node as [f | l | a]; injection H as <- <- <-.
       * split; [constructor; [reflexivity | exact Hp2] |]. split; [intros f0 _; eexists; reflexivity |].
-        cbn in Ha1. split; [lra |].
         unfold qsum. cbn [map fold_right eloss]. unfold floss, set_att. cbn [f_lin f_cin f_cout f_att]. lra.
       * split; [exact Hp |]. split; [intros f0 Hf0; discriminate | split; reflexivity].
       * split; [exact Hp |]. split; [intros f0 Hf0; discriminate | split; reflexivity].
@@ -655,7 +672,7 @@ Lemma process_last : forall c done seg f t,
   amp_headed t -> Forall passive seg -> Forall raw_el seg -> nff (Fib f :: seg) -> raw_el (Fib f) ->
   exists seg2, padr c done seg (Fib f :: t) = padr c done seg2 t /\ Forall passive seg2 /\ seg_ok seg2.
 Proof.
-  intros c done seg f t Ht Hp Hsr Hn1 [Hdsl Hatt].
+  intros c done seg f t Ht Hp Hsr Hn1 Hdsl. cbn in Hdsl.
   assert (Hp1 : Forall passive (Fib f :: seg)) by (constructor; [reflexivity | exact Hp]).
   assert (Esl : span_loss seg (Fib f) t == qsum (map eloss (Fib f :: seg))).
   { unfold span_loss. rewrite Hdsl. apply live_seg; auto. }
@@ -664,7 +681,7 @@ Proof.
                   let f1 := set_dsl f sl in
                   if qltb sl (c_padding c) then
                     match bump seg (Fib f1) (c_padding c - sl) with
-                    | (seg', Fib f2, Some att) => padr c done (Fib (set_dsl f2 (sl + att)) :: seg') t
+                    | (seg', Fib f2, Some _) => padr c done (Fib (set_dsl f2 (sl + (c_padding c - sl))) :: seg') t
                     | (seg', e2, _) => padr c done (e2 :: seg') t
                     end
                   else padr c done (Fib f1 :: seg) t).
@@ -676,12 +693,10 @@ Proof.
   destruct (bump seg (Fib (set_dsl f sl)) (c_padding c - sl)) as [[seg' e2] o] eqn:EB.
   destruct (bump_spec _ _ _ _ _ _ EB) as (Hp' & Hfib & Ho).
   { exact Hpk. }
-  { constructor; [exact Hatt |]. apply Forall_forall. intros y Hy.
-    rewrite Forall_forall in Hsr. specialize (Hsr y Hy). destruct y; cbn in *; tauto. }
   destruct (Hfib _ eq_refl) as [f2 ->].
   destruct o as [att |].
-  - destruct Ho as [Hatt' Hsum].
-    exists (Fib (set_dsl f2 (sl + att)) :: seg'). split; [reflexivity |]. split.
+  - rename Ho into Hsum.
+    exists (Fib (set_dsl f2 (sl + (c_padding c - sl))) :: seg'). split; [reflexivity |]. split.
     + inversion Hp'; subst. constructor; [reflexivity | assumption].
     + eapply seg_ok_cached; [reflexivity |].
       unfold qsum in *. cbn [map fold_right eloss] in *. unfold floss, set_dsl in *.
@@ -724,7 +739,7 @@ Proof.
       * cbn [rwf]. rewrite (take_passive_app seg done Hp Hh). split; [| apply rwf_passive_app; assumption].
         destruct Hst as [(Hsr & Hsn & _) | [Hok _]]; [| exact Hok].
         apply seg_ok_live; auto. destruct seg as [| [g | | ] seg]; try exact I.
-        inversion Hsr as [| ? ? Hg _]; subst. apply Hg.
+        inversion Hsr as [| ? ? Hg _]; subst. exact Hg.
       * left. split; [constructor |]. split; exact I.
 Qed.
 
@@ -732,16 +747,13 @@ Qed.
 Definition rfib_pair (x : relem) (t : list relem) : Prop :=
   match x, t with RFib _, RFib _ :: _ => False | _, _ => True end.
 Fixpoint rnff (l : list relem) : Prop := match l with [] => True | x :: t => rfib_pair x t /\ rnff t end.
-(* the operator gave no att_in, and an amplifier separates any two consecutive fibres *)
-Definition raw_ok (l : list relem) : Prop :=
-  Forall (fun e => match e with RFib f => rf_att f == 0 | _ => True end) l /\ rnff l.
+(* an amplifier separates any two consecutive fibres (add_inline_amplifier, C08) *)
+Definition raw_ok (l : list relem) : Prop := rnff l.
 
-Lemma conn_raw : forall c l,
-  Forall (fun e => match e with RFib f => rf_att f == 0 | _ => True end) l -> Forall raw_el (conn c l).
+Lemma conn_raw : forall c l, Forall raw_el (conn c l).
 Proof.
-  intros c l H. induction H as [| x t Hx Ht IH]; [constructor |].
-  destruct x as [f | y | a]; cbn [conn]; constructor; try exact I; try exact IH.
-  split; [reflexivity | exact Hx].
+  intros c l. induction l as [| x t IH]; [constructor |].
+  destruct x as [f | y | a]; cbn [conn]; constructor; try exact I; try exact IH. reflexivity.
 Qed.
 
 Lemma conn_nff : forall c l, rnff l -> nff (conn c l).
@@ -754,13 +766,13 @@ Qed.
 
 Theorem prep_budget_wf : forall c raw, raw_ok raw -> budget_wf [] (prep c raw).
 Proof.
-  intros c raw [Hatt Hn]. unfold prep. apply rwf_budget; [constructor |].
+  intros c raw Hn. unfold prep. apply rwf_budget; [constructor |].
   rewrite rev_involutive, app_nil_r.
-  apply padr_rwf; [exact I | exact I | constructor | apply conn_raw; exact Hatt | apply conn_nff; exact Hn |].
+  apply padr_rwf; [exact I | exact I | constructor | apply conn_raw | apply conn_nff; exact Hn |].
   left. split; [constructor |]. split; [exact I |]. destruct (conn c raw); exact I.
 Qed.
 
-(* the budget closes along ANY OMS designed from loaded elements without operator att_in *)
+(* the budget closes along ANY OMS designed from loaded elements *)
 Theorem budget_closed_raw : forall c lib bmin bmax pref_ch pref_total p0 s e raw ds,
   raw_ok raw ->
   design c lib bmin bmax pref_ch pref_total p0 s e (prep c raw) = Ok ds ->
@@ -782,44 +794,13 @@ Proof.
   cbn [combine forallb fst snd]. rewrite IH, andb_true_r. apply Qeq_bool_iff. exact Hq.
 Qed.
 
-(* ------------------------------------------------------------------ where the full statements fail (faithful model = findings) *)
+(* ------------------------------------------------------------------ where the full statement fails (faithful model = open finding) *)
 Definition w_cfg (pm : bool) (margin : Q) : span_cfg :=
   mkSpan pm [-2; 3; 1 # 2] 20 (3 # 10) margin (1 # 2) (5 # 2) (1 # 4000) 10 0 0 0.
 Definition w_lib : list amp := [mkAmp "A" false false true 191275 196125 15 25 (163 # 10) true].
 Definition w_amp (g dp ov iv : option Q) : ampn := mkAN (mkNode "A" []) g dp ov iv [].
 
-(* (1) operator att_in on a padded span: 4 dB of fibre + 0.5 + 0.5 connectors + att_in 2, padding 10.  The span
-   really loses 10 dB, design_span_loss says 12, and the reference channel leaves the preamp 2 dB too high *)
-Definition w_raw_att : list relem :=
-  [RAmp (w_amp None None None None); RFib (mkRF 4 (Some (1 # 2)) (Some (1 # 2)) 2 [2 # 10000]); RAmp (w_amp None None None None)].
-
-Theorem budget_refuted_att_in :
-  exists c lib bmin bmax pref_ch pref_total p0 s e raw ds,
-    rnff raw /\
-    design c lib bmin bmax pref_ch pref_total p0 s e (prep c raw) = Ok ds /\
-    ~ Forall2 (fun q d => q == pref_ch + d_dp d) (walk p0 (prep c raw) ds) ds.
-Proof.
-  exists (w_cfg true 1), w_lib, 191300, 196100, 0, 10, (-20), (StartRoadm []), (EndRoadm []), w_raw_att.
-  eexists. split; [cbn; tauto |]. split; [vm_compute; reflexivity |].
-  intros H. apply walk_okb_complete in H. vm_compute in H. discriminate H.
-Qed.
-
-(* (2) automatic VOA with a margin below half the step: head-room 0.3 dB is rounded to 0.5 dB *)
-Theorem voa_overshoot_refuted :
-  exists c lib bmin bmax pref_total prev_dp prev_voa nl tp tp_arg prev next a d dp voa p,
-    ~ voa_margin_ok c /\ c_power_mode c = true /\
-    set_one c lib bmin bmax pref_total prev_dp prev_voa nl tp tp_arg prev next a = Ok (d, dp, voa) /\
-    find_amp (d_variety d) lib = Some p /\ a_pmax p < pref_total + d_dp d.
-Proof.
-  exists (w_cfg true 0), w_lib, 191300, 196100, 16, 0, 0, 20, (Ok 0), 0, NOther, NOther, (w_amp None (Some 0) None None).
-  eexists. eexists. eexists. eexists. split.
-  - intros [H _]. assert (X : 1 # 100 <= r2f_step (c_voa_step (w_cfg true 0))) by (vm_compute; discriminate).
-    specialize (H X). vm_compute in H. apply H. reflexivity.
-  - split; [reflexivity |]. split; [vm_compute; reflexivity |]. split; [vm_compute; reflexivity |].
-    vm_compute. reflexivity.
-Qed.
-
-(* (3) gain mode: the saturation test forgets the input VOA.  Operator gain 16.5 dB, in_voa 1 dB, 16 dBm at the
+(* gain mode: the saturation test forgets the input VOA.  Operator gain 16.5 dB, in_voa 1 dB, 16 dBm at the
    amplifier input: the output would be 15.5 dBm < p_max 16.3, yet the gain is reduced *)
 Theorem gain_mode_in_voa_refuted :
   exists c lib bmin bmax pref_total prev_dp prev_voa nl tp tp_arg prev next a d dp voa p g iv,
